@@ -7,7 +7,7 @@ PROP = 'C14'
 STEP_KINDS = ['rewrite', 'assign-value', 'assign-units', 'rename', 'origin-ref', 'cast-dtype', 'add-objects',
               'add-nf-data', 'other-window', 'other-chunks', 'other-data', 'other-data-dtype', 'other-data-width', 'foreign-same-names', 'foreign-colliding-values',
               'hc-mode-around', 'param-values', 'clear-channel-units', 'change-channel-units', 'assign-other-kind',
-              'rename-then-reuse-name', 'rejected-add-then-same-name', 'assign-derived-attr']
+              'rename-then-reuse-name', 'rejected-add-then-same-name', 'assign-derived-attr', 'rename-channel']
 META = {
     'level': 'exploration',
     'rule': ('one evaluation = one history (foreign files built and written, the target file built, written, mutated and '
@@ -155,6 +155,14 @@ def make_phase(r, kind, ops_so_far, base, avoid):
             cands = [(i, o) for i, o in objs if o['op'] in ('frame', 'no_format', 'zone', 'axis')] or cands
         i, o = r.choice(cands)
         ph['ops'].append({'op': 'setattr', 'target': i, 'field': 'name', 'value': 'RENAMED-%d' % i})
+    elif kind == 'rename-channel':
+        # a channel (with explicit dataset_name, so that its data are still found) is renamed after a write: whatever was
+        # defaulted from its name at that write (LONG-NAME) follows
+        cands = [(i, o) for i, o in chans if o.get('dataset_name') and not any(q.get('op') == 'setattr' and q.get('target') == i for q in ops_so_far)
+                 and sum(1 for _, q in chans if q['name'] == o['name']) == 1]
+        if cands:
+            i, o = r.choice(cands)
+            ph['ops'].append({'op': 'setattr', 'target': i, 'field': 'name', 'value': 'RENAMED-CHANNEL-%d' % i, 'fold': True})
     elif kind == 'assign-derived-attr':
         # attributes the library derives from the data when they are left alone (frame index bounds and spacing, channel
         # element limit) are given explicitly AFTER a write that derived them
